@@ -16,6 +16,16 @@ import (
 	"github.com/blues/jsonata-go/jtypes"
 )
 
+// padString is jlib.Pad with a check that the width is a number
+// jlib.Pad can work with: a width such as 1e21 does not survive the
+// conversion to int ($pad("x", 1e21) used to panic in makeslice).
+func padString(s string, width float64, chars jtypes.OptionalString) (string, error) {
+	if math.IsNaN(width) || width >= 1<<31 || width <= -(1<<31) {
+		return "", errors.New("second argument of the pad function is out of range")
+	}
+	return jlib.Pad(s, int(width), chars), nil
+}
+
 // roundNumber is jlib.Round with a check that the result is a
 // number: rounding a number near the largest double to a negative
 // precision can overflow ($round(1.7976931348623157e308, -308)).
@@ -116,7 +126,7 @@ var baseEnv = initBaseEnv(map[string]Extension{
 		EvalContextHandler: defaultContextHandler,
 	},
 	"pad": {
-		Func:               jlib.Pad,
+		Func:               padString,
 		UndefinedHandler:   defaultUndefinedHandler,
 		EvalContextHandler: contextHandlerPad,
 	},
